@@ -49,6 +49,14 @@ try:
     except Exception:
         notes = ""
     meta["needs_to_manifest"] = notes[:1500]
+    try:
+        old = json.load(open(os.path.join(dst, "meta.json")))
+    except Exception:
+        old = {}
+    # the first evaluation of a seed is remembered; later runs (after strengthening a check) do not overwrite it
+    meta["first_run_detected"] = old.get("first_run_detected", meta["detected_by_quick_check"])
+    if "strengthening" in old:
+        meta["strengthening"] = old["strengthening"]
     json.dump(meta, open(os.path.join(dst, "meta.json"), "w"), indent=1)
 finally:
     for t in ("clean", "mut"):
